@@ -255,6 +255,11 @@ class Hist:
             dm = rng.choice(dims); kx = dims.index(dm)
             sb = list(m["shape"]); sb[kx] = rng.randint(1, 2)
             cb = [list(c) for c in m["coords"]]
+            bad = len(dims) > 1 and rng.random() < 0.15        # an extent off the axis differs: NumPy refuses
+            if bad:
+                ko = rng.choice([q for q in range(len(dims)) if q != kx])
+                sb[ko] += 1
+                cb[ko] = cb[ko] + [str(max(Fraction(x) for x in cb[ko]) + 1)]
             top = max(Fraction(x) for x in m["coords"][kx])
             cb[kx] = [str(top + 1 + t) for t in range(sb[kx])]
             b = self.next_id; self.next_id += 1
@@ -265,7 +270,8 @@ class Hist:
                 arg = partial_orders(rng, dims)
                 O.append({"op": "reorder", "obj": b, "dims": arg}); self.permute(b, arg + [d for d in dims if d not in arg])
             O.append({"op": "concatenate", "obj": i, "other": b, "dim": dm})
-            m["shape"][kx] += sb[kx]; m["coords"][kx] = m["coords"][kx] + cb[kx]
+            if not bad:
+                m["shape"][kx] += sb[kx]; m["coords"][kx] = m["coords"][kx] + cb[kx]
         elif k == "split":
             kx = rng.randrange(len(dims))
             n = m["shape"][kx]
